@@ -165,16 +165,18 @@ func ruleVoidPush(p *Program, r *Reporter) {
 	// the interpreter re-entry
 	var results []ssa.Value
 	var where []token.Pos
-	for _, b := range run.Blocks {
-		for _, ins := range b.Instrs {
+	var whereFn []*ssa.Function
+	for _, ins := range handlerInstrs(p, a, "OpCall") {
+		{
 			c, ok := ins.(*ssa.Call)
-			if !ok || !strings.Contains(outerCase(p, run, c.Pos()), "OpCall") {
+			if !ok {
 				continue
 			}
 			if c.Call.StaticCallee() == nil && !c.Call.IsInvoke() {
 				if _, isB := c.Call.Value.(*ssa.Builtin); !isB {
 					results = append(results, c)
 					where = append(where, c.Pos())
+					whereFn = append(whereFn, c.Parent())
 				}
 			}
 			if cal := c.Call.StaticCallee(); cal != nil {
@@ -184,11 +186,19 @@ func ruleVoidPush(p *Program, r *Reporter) {
 						reenters = true
 					}
 				}
+				// inside a function that re-enters for the handler the result is
+				// only handed back: it is judged where that function is called
+				for _, re := range runReentries(p, run) {
+					if re.fn == c.Parent() && c.Parent() != run {
+						reenters = false
+					}
+				}
 				if reenters {
 					for _, ref := range liveRefs(c) {
 						if ex, ok := ref.(*ssa.Extract); ok && ex.Index == 0 {
 							results = append(results, ex)
 							where = append(where, c.Pos())
+							whereFn = append(whereFn, c.Parent())
 						}
 					}
 				}
@@ -200,7 +210,7 @@ func ruleVoidPush(p *Program, r *Reporter) {
 		return
 	}
 	for i, res := range results {
-		key := siteKey(p, run, where[i], "result pushed iff not void")
+		key := siteKey(p, whereFn[i], where[i], "result pushed iff not void")
 		// Push(res) calls, each guarded by If(res.Type() != VOID)
 		var pushes []*ssa.Call
 		for _, ref := range liveRefs(res) {
